@@ -90,6 +90,13 @@ def gen_font_case(rng, i):
                 used.append(cp)
         glyphs.append({"name": nm, "width": 500, "unicodes": us,
                        "contours": [[(0, 0, "line"), (100, 0, "line"), (50, 100, "line")]] if rng.random() < 0.7 else []})
+    if i % 10 == 3:
+        # a glyph whose FIRST code point is U+0000 (the NULL glyph), with further code points after it
+        g0 = next((g for g in glyphs if g["name"] != ".notdef"), None)
+        if g0 is not None:
+            for g in glyphs:
+                g["unicodes"] = [u for u in g["unicodes"] if u not in (0x0, 0xD, 0x2400)]
+            g0["unicodes"] = [0x0, 0xD, 0x2400][: 1 + (i // 10) % 3]
     pool = names + ["nope"]
     order = None
     if rng.random() < 0.8:
